@@ -32,6 +32,7 @@ type Result struct {
 	Excluded   string   `json:"excluded,omitempty"`   // non-empty: case hit the shape of an open known finding and was not judged
 	Inconcl    string   `json:"inconclusive,omitempty"`
 	Sample     any      `json:"sample,omitempty"` // optional compact rendering of the case for the evidence file (default: the case)
+	Counts     map[string]int `json:"counts,omitempty"` // additional measured counters, summed into the class histogram
 }
 
 func Failf(format string, a ...any) Result { return Result{Err: fmt.Sprintf(format, a...)} }
@@ -92,6 +93,9 @@ func (s *stats) record(raw []byte, c any, r *Result) {
 	s.Evaluations++
 	for _, l := range r.Labels {
 		s.Classes[l]++
+	}
+	for k, v := range r.Counts {
+		s.Classes[k] += v
 	}
 	if r.Excluded != "" {
 		s.Excluded[r.Excluded]++
